@@ -2,5 +2,5 @@
 # run the checks of the given properties against a seeded change applied to /repo, then undo it
 patch=$1; shift
 git -C /repo apply $patch || exit 2
-for p in "$@"; do echo "--- $p"; python3 /verif/bin/check.py --property $p 2>&1 | cut -c1-260 | head -12; echo "exit=${PIPESTATUS[0]}"; done
+for p in "$@"; do echo "--- $p"; python3 /verif/bin/check.py --property $p --no-evidence 2>&1 | cut -c1-260 | head -12; echo "exit=${PIPESTATUS[0]}"; done
 git -C /repo checkout -- .
